@@ -9,7 +9,8 @@ From IT Require Import proofs.NoPanicPipeline proofs.NoPanicEntries proofs.Thres
 
 Lemma run_insp_tbl_no_panic cmds dsse w i p : run_insp_tbl cmds dsse w i <> Panic p.
 Proof.
-  unfold run_insp_tbl. destruct (i_run i) as [|c r]; [discriminate|].
+  unfold run_insp_tbl. destruct (negb (world_recordable w)); [discriminate|].
+  destruct (i_run i) as [|c r]; [discriminate|].
   destruct (cmd_lookup cmds (c :: r)) as [[| n h | rv |]|]; discriminate.
 Qed.
 
